@@ -416,7 +416,8 @@ func (r *RecursiveDNSServer) unmarshal(b []byte) error {
 	// Make sure at least one server is present, and that the IPv6 addresses are
 	// the expected 16 byte length.
 	dividend := (int(b[1]) - 1) * 8 // ignore first 8 bytes for header and lifetime
-	if dividend%2 != 0 {
+	// RFC 8106 5.3.1: Length is 1 + 2 * number of addresses
+	if (int(b[1])-1)%2 != 0 {
 		return errRDNSSBadServer
 	}
 
